@@ -33,6 +33,19 @@ def tailFrom (d : List UInt8) (n : Nat) : Res CErr (List UInt8) :=
 def copyFrom (d : List UInt8) (k n : Nat) : Res CErr (List UInt8) :=
   if k + n ≤ d.length ∨ n = 0 then .ok ((d.drop k).take n) else .panic
 
+/-- `for i in a..b { data.push(arr[i as usize]); }` — panics when some `i` of the range is not an index of `arr` -/
+def pushRange (data arr : List UInt8) (a b : Nat) : Res BErr (List UInt8) :=
+  if a < b ∧ arr.length < b then .panic else .ok (data ++ (arr.take b).drop a)
+
+/-- `for x in xs.iter() { body }` with an accumulator, stopping at the first failure -/
+def forEach {α β : Type} : List α → β → (β → α → Res BErr β) → Res BErr β
+  | [], acc, _ => .ok acc
+  | x :: xs, acc, body =>
+    match body acc x with
+    | .ok d => forEach xs d body
+    | .err e => .err e
+    | .panic => .panic
+
 /-- `frame[i]` in `src/frame.rs` (errors of type `FrameError`) -/
 def idxF (d : List UInt8) (i : Nat) : Res FErr UInt8 := rd d i
 
